@@ -294,7 +294,7 @@ def run(ctx):
                 ctx.violation("R10.5", "conjure-codegen/src/enums.rs", "enum|variant-rename-missing", "generated enums derive Serialize/Deserialize but no variant carries #[serde(rename = <declared value>)]: the wire name would be the Rust identifier")
     # ---------------- R10.6 the payload of an unknown union variant is carried by Any (shared with C13)
     from . import c13
-    ctx.include(c13, {"R13.1", "R13.2"}, "R10.6", "the payload of an unknown variant must re-serialize to an equivalent document")
+    ctx.include(c13, {"R13.1", "R13.2", "R13.3"}, "R10.6", "the payload of an unknown variant must re-serialize to an equivalent document")
 
 
 def field_names(sources):
